@@ -39,7 +39,7 @@ pub open spec fn linf_f<A: Signed + PartialOrd>() -> spec_fn(A, (A, A)) -> A { |
 pub open spec fn visits_all<A>(ps: Seq<(A, A)>, a: Seq<A>, b: Seq<A>) -> bool { ps.to_multiset() == zip_seq(a, b).to_multiset() }
 
 impl<A, D: Dimension> ArrayN<A, D> {
-//@extract file=src/deviation.rs impl=DeviationExt:ArrayBase fn=sq_l2_dist id=sq_l2_dist tags=C09,C17,C20 body_tags=C09
+//@extract file=src/deviation.rs impl=DeviationExt:ArrayBase fn=sq_l2_dist id=sq_l2_dist tags=C09,C17,C20 body_tags=C09 macro_into=verif_into_same
 //@sig
     fn sq_l2_dist(&self, other: &ArrayN<A, D>) -> (r: Result<A, MultiInputError>)
     where
@@ -48,7 +48,8 @@ impl<A, D: Dimension> ArrayN<A, D> {
         requires arith_total::<A>(), lawful_clone::<A>(),
         ensures
             self@.len() == 0 ==> r matches Err(MultiInputError::EmptyInput), // [C09,C17]
-            self@.len() > 0 && self.shape_spec() != other.shape_spec() ==> r is Err, // [C09,C17]
+            self@.len() > 0 && self.shape_spec() != other.shape_spec() ==> (r matches Err(MultiInputError::ShapeMismatch(sm)) && sm.first_shape@ == self.shape_spec() && sm.second_shape@ == other.shape_spec()), // [C09,C17] both shapes in the payload
+            self@.len() > 0 && self.shape_spec() == other.shape_spec() ==> r is Ok, // [C17] Ok otherwise
             // sum of (a-b)^2 over all index-aligned pairs (each once); for a commutative-associative `+` the order is immaterial
             self@.len() > 0 && self.shape_spec() == other.shape_spec() ==> (r matches Ok(v) && exists|ps: Seq<(A, A)>| #[trigger] visits_all(ps, self@, other@) && v == ps.fold_left(A::zero_spec(), sq_f::<A>())
                 && (vstd::seq_lib::commutative_foldl(sq_f::<A>()) ==> v == zip_seq(self@, other@).fold_left(A::zero_spec(), sq_f::<A>()))), // [C09,C20]
@@ -77,7 +78,7 @@ impl<A, D: Dimension> ArrayN<A, D> {
         }
 //@end
 
-//@extract file=src/deviation.rs impl=DeviationExt:ArrayBase fn=l1_dist id=l1_dist tags=C09,C17,C20 body_tags=C09
+//@extract file=src/deviation.rs impl=DeviationExt:ArrayBase fn=l1_dist id=l1_dist tags=C09,C17,C20 body_tags=C09 macro_into=verif_into_same
 //@sig
     fn l1_dist(&self, other: &ArrayN<A, D>) -> (r: Result<A, MultiInputError>)
     where
@@ -86,7 +87,8 @@ impl<A, D: Dimension> ArrayN<A, D> {
         requires arith_total::<A>(), lawful_clone::<A>(),
         ensures
             self@.len() == 0 ==> r matches Err(MultiInputError::EmptyInput), // [C09,C17]
-            self@.len() > 0 && self.shape_spec() != other.shape_spec() ==> r is Err, // [C09,C17]
+            self@.len() > 0 && self.shape_spec() != other.shape_spec() ==> (r matches Err(MultiInputError::ShapeMismatch(sm)) && sm.first_shape@ == self.shape_spec() && sm.second_shape@ == other.shape_spec()), // [C09,C17] both shapes in the payload
+            self@.len() > 0 && self.shape_spec() == other.shape_spec() ==> r is Ok, // [C17] Ok otherwise
             self@.len() > 0 && self.shape_spec() == other.shape_spec() ==> (r matches Ok(v) && exists|ps: Seq<(A, A)>| #[trigger] visits_all(ps, self@, other@) && v == ps.fold_left(A::zero_spec(), l1_f::<A>())
                 && (vstd::seq_lib::commutative_foldl(l1_f::<A>()) ==> v == zip_seq(self@, other@).fold_left(A::zero_spec(), l1_f::<A>()))), // [C09,C20] sum of |a-b|
 //@at entry
@@ -114,7 +116,7 @@ impl<A, D: Dimension> ArrayN<A, D> {
         }
 //@end
 
-//@extract file=src/deviation.rs impl=DeviationExt:ArrayBase fn=linf_dist id=linf_dist tags=C09,C17,C20 body_tags=C09
+//@extract file=src/deviation.rs impl=DeviationExt:ArrayBase fn=linf_dist id=linf_dist tags=C09,C17,C20 body_tags=C09 macro_into=verif_into_same
 //@sig
     fn linf_dist(&self, other: &ArrayN<A, D>) -> (r: Result<A, MultiInputError>)
     where
@@ -123,7 +125,8 @@ impl<A, D: Dimension> ArrayN<A, D> {
         requires A::obeys_sub_spec(), forall|a: A, b: A| #[trigger] a.sub_req(b), A::obeys_partial_cmp_spec(), lawful_clone::<A>(),
         ensures
             self@.len() == 0 ==> r matches Err(MultiInputError::EmptyInput), // [C09,C17]
-            self@.len() > 0 && self.shape_spec() != other.shape_spec() ==> r is Err, // [C09,C17]
+            self@.len() > 0 && self.shape_spec() != other.shape_spec() ==> (r matches Err(MultiInputError::ShapeMismatch(sm)) && sm.first_shape@ == self.shape_spec() && sm.second_shape@ == other.shape_spec()), // [C09,C17] both shapes in the payload
+            self@.len() > 0 && self.shape_spec() == other.shape_spec() ==> r is Ok, // [C17] Ok otherwise
             self@.len() > 0 && self.shape_spec() == other.shape_spec() ==> (r matches Ok(v) && exists|ps: Seq<(A, A)>| #[trigger] visits_all(ps, self@, other@) && v == ps.fold_left(A::zero_spec(), linf_f::<A>())
                 && (vstd::seq_lib::commutative_foldl(linf_f::<A>()) ==> v == zip_seq(self@, other@).fold_left(A::zero_spec(), linf_f::<A>()))), // [C09,C20] running maximum of |a-b| starting from zero
 //@at entry
@@ -151,7 +154,90 @@ impl<A, D: Dimension> ArrayN<A, D> {
         }
 //@end
 
-//@extract file=src/deviation.rs impl=DeviationExt:ArrayBase fn=count_eq id=count_eq tags=C09,C17,C20 body_tags=C09
+//@extract file=src/deviation.rs impl=DeviationExt:ArrayBase fn=l2_dist id=l2_dist tags=C09,C17 body_tags=C09
+//@sig
+    fn l2_dist(&self, other: &ArrayN<A, D>) -> (r: Result<f64, MultiInputError>)
+    where
+        A: AddAssign + Clone + Signed + ToPrimitive,
+//@spec
+        requires arith_total::<A>(), lawful_clone::<A>(), to_f64_total::<A>(),
+        ensures
+            self@.len() == 0 ==> r matches Err(MultiInputError::EmptyInput), // [C09,C17]
+            self@.len() > 0 && self.shape_spec() != other.shape_spec() ==> (r matches Err(MultiInputError::ShapeMismatch(sm)) && sm.first_shape@ == self.shape_spec() && sm.second_shape@ == other.shape_spec()), // [C09,C17] both shapes in the payload
+            self@.len() > 0 && self.shape_spec() == other.shape_spec() ==> r is Ok, // [C17] Ok otherwise
+            // the square root of the squared distance, converted to f64 first
+            r matches Ok(x) ==> exists|ps: Seq<(A, A)>| #[trigger] visits_all(ps, self@, other@) && x == f64_sqrt(ps.fold_left(A::zero_spec(), sq_f::<A>()).to_f64_spec()->Some_0), // [C09]
+//@end
+
+//@extract file=src/deviation.rs impl=DeviationExt:ArrayBase fn=mean_abs_err id=mean_abs_err tags=C09,C17 body_tags=C09
+//@sig
+    fn mean_abs_err(&self, other: &ArrayN<A, D>) -> (r: Result<f64, MultiInputError>)
+    where
+        A: AddAssign + Clone + Signed + ToPrimitive,
+//@spec
+        requires arith_total::<A>(), lawful_clone::<A>(), to_f64_total::<A>(),
+        ensures
+            self@.len() == 0 ==> r matches Err(MultiInputError::EmptyInput), // [C09,C17]
+            self@.len() > 0 && self.shape_spec() != other.shape_spec() ==> (r matches Err(MultiInputError::ShapeMismatch(sm)) && sm.first_shape@ == self.shape_spec() && sm.second_shape@ == other.shape_spec()), // [C09,C17] both shapes in the payload
+            self@.len() > 0 && self.shape_spec() == other.shape_spec() ==> r is Ok, // [C17] Ok otherwise
+            // the l1 distance, converted to f64, divided by the number of elements converted to f64
+            r matches Ok(x) ==> exists|ps: Seq<(A, A)>| #[trigger] visits_all(ps, self@, other@) && x == f64_div(ps.fold_left(A::zero_spec(), l1_f::<A>()).to_f64_spec()->Some_0, usize_as_f64(self@.len() as usize)), // [C09]
+//@replace_text
+self.len() as f64
+verif_usize_as_f64(self.len())
+//@binop / 0 verif_f64_div
+//@end
+
+//@extract file=src/deviation.rs impl=DeviationExt:ArrayBase fn=mean_sq_err id=mean_sq_err tags=C09,C17 body_tags=C09
+//@sig
+    fn mean_sq_err(&self, other: &ArrayN<A, D>) -> (r: Result<f64, MultiInputError>)
+    where
+        A: AddAssign + Clone + Signed + ToPrimitive,
+//@spec
+        requires arith_total::<A>(), lawful_clone::<A>(), to_f64_total::<A>(),
+        ensures
+            self@.len() == 0 ==> r matches Err(MultiInputError::EmptyInput), // [C09,C17]
+            self@.len() > 0 && self.shape_spec() != other.shape_spec() ==> (r matches Err(MultiInputError::ShapeMismatch(sm)) && sm.first_shape@ == self.shape_spec() && sm.second_shape@ == other.shape_spec()), // [C09,C17] both shapes in the payload
+            self@.len() > 0 && self.shape_spec() == other.shape_spec() ==> r is Ok, // [C17] Ok otherwise
+            r matches Ok(x) ==> exists|ps: Seq<(A, A)>| #[trigger] visits_all(ps, self@, other@) && x == f64_div(ps.fold_left(A::zero_spec(), sq_f::<A>()).to_f64_spec()->Some_0, usize_as_f64(self@.len() as usize)), // [C09]
+//@replace_text
+self.len() as f64
+verif_usize_as_f64(self.len())
+//@binop / 0 verif_f64_div
+//@end
+
+//@extract file=src/deviation.rs impl=DeviationExt:ArrayBase fn=root_mean_sq_err id=root_mean_sq_err tags=C09,C17 body_tags=C09
+//@sig
+    fn root_mean_sq_err(&self, other: &ArrayN<A, D>) -> (r: Result<f64, MultiInputError>)
+    where
+        A: AddAssign + Clone + Signed + ToPrimitive,
+//@spec
+        requires arith_total::<A>(), lawful_clone::<A>(), to_f64_total::<A>(),
+        ensures
+            self@.len() == 0 ==> r matches Err(MultiInputError::EmptyInput), // [C09,C17]
+            self@.len() > 0 && self.shape_spec() != other.shape_spec() ==> (r matches Err(MultiInputError::ShapeMismatch(sm)) && sm.first_shape@ == self.shape_spec() && sm.second_shape@ == other.shape_spec()), // [C09,C17] both shapes in the payload
+            self@.len() > 0 && self.shape_spec() == other.shape_spec() ==> r is Ok, // [C17] Ok otherwise
+            r matches Ok(x) ==> exists|ps: Seq<(A, A)>| #[trigger] visits_all(ps, self@, other@) && x == f64_sqrt(f64_div(ps.fold_left(A::zero_spec(), sq_f::<A>()).to_f64_spec()->Some_0, usize_as_f64(self@.len() as usize))), // [C09]
+//@end
+
+//@extract file=src/deviation.rs impl=DeviationExt:ArrayBase fn=peak_signal_to_noise_ratio id=peak_signal_to_noise_ratio tags=C09,C17 body_tags=C09
+//@sig
+    fn peak_signal_to_noise_ratio(&self, other: &ArrayN<A, D>, maxv: A) -> (r: Result<f64, MultiInputError>)
+    where
+        A: AddAssign + Clone + Signed + ToPrimitive,
+//@spec
+        requires arith_total::<A>(), lawful_clone::<A>(), to_f64_total::<A>(),
+        ensures
+            self@.len() == 0 ==> r matches Err(MultiInputError::EmptyInput), // [C09,C17]
+            self@.len() > 0 && self.shape_spec() != other.shape_spec() ==> (r matches Err(MultiInputError::ShapeMismatch(sm)) && sm.first_shape@ == self.shape_spec() && sm.second_shape@ == other.shape_spec()), // [C09,C17] both shapes in the payload
+            self@.len() > 0 && self.shape_spec() == other.shape_spec() ==> r is Ok, // [C17] Ok otherwise
+            r matches Ok(x) ==> exists|ps: Seq<(A, A)>| #[trigger] visits_all(ps, self@, other@) && x == f64_mul(10.0f64, f64_log10(f64_div(f64_mul(maxv.to_f64_spec()->Some_0, maxv.to_f64_spec()->Some_0), f64_div(ps.fold_left(A::zero_spec(), sq_f::<A>()).to_f64_spec()->Some_0, usize_as_f64(self@.len() as usize))))), // [C09]
+//@binop * 0 verif_f64_mul
+//@binop * 1 verif_f64_mul
+//@binop / 0 verif_f64_div
+//@end
+
+//@extract file=src/deviation.rs impl=DeviationExt:ArrayBase fn=count_eq id=count_eq tags=C09,C17,C20 body_tags=C09 macro_into=verif_into_same
 //@sig
     fn count_eq(&self, other: &ArrayN<A, D>) -> (r: Result<usize, MultiInputError>)
     where
@@ -160,7 +246,8 @@ impl<A, D: Dimension> ArrayN<A, D> {
         requires A::obeys_eq_spec(),
         ensures
             self@.len() == 0 ==> r matches Err(MultiInputError::EmptyInput), // [C09,C17]
-            self@.len() > 0 && self.shape_spec() != other.shape_spec() ==> r is Err, // [C09,C17] (the payload goes through `.into()`, which Verus does not model for the reflexive From impl: checked by enum:errors)
+            self@.len() > 0 && self.shape_spec() != other.shape_spec() ==> (r matches Err(MultiInputError::ShapeMismatch(sm)) && sm.first_shape@ == self.shape_spec() && sm.second_shape@ == other.shape_spec()), // [C09,C17] both shapes in the payload
+            self@.len() > 0 && self.shape_spec() == other.shape_spec() ==> r is Ok, // [C17] Ok otherwise
             self@.len() > 0 && self.shape_spec() == other.shape_spec() ==> (r matches Ok(c) && c == count_eq_spec(self@, other@) && c <= self@.len()), // [C09,C20] the number of index positions holding equal elements
 //@at entry
         proof { assert(lawful_clone::<usize>()); }
@@ -190,7 +277,7 @@ impl<A, D: Dimension> ArrayN<A, D> {
         }
 //@end
 
-//@extract file=src/deviation.rs impl=DeviationExt:ArrayBase fn=count_neq id=count_neq tags=C09,C17,C20 body_tags=C09
+//@extract file=src/deviation.rs impl=DeviationExt:ArrayBase fn=count_neq id=count_neq tags=C09,C17,C20 body_tags=C09 macro_into=verif_into_same
 //@sig
     fn count_neq(&self, other: &ArrayN<A, D>) -> (r: Result<usize, MultiInputError>)
     where
@@ -199,7 +286,8 @@ impl<A, D: Dimension> ArrayN<A, D> {
         requires A::obeys_eq_spec(),
         ensures
             self@.len() == 0 ==> r matches Err(MultiInputError::EmptyInput), // [C09,C17]
-            self@.len() > 0 && self.shape_spec() != other.shape_spec() ==> r is Err, // [C09,C17]
+            self@.len() > 0 && self.shape_spec() != other.shape_spec() ==> (r matches Err(MultiInputError::ShapeMismatch(sm)) && sm.first_shape@ == self.shape_spec() && sm.second_shape@ == other.shape_spec()), // [C09,C17] both shapes in the payload
+            self@.len() > 0 && self.shape_spec() == other.shape_spec() ==> r is Ok, // [C17] Ok otherwise
             self@.len() > 0 && self.shape_spec() == other.shape_spec() ==> (r matches Ok(c) && c + count_eq_spec(self@, other@) == self@.len()), // [C09] count_eq + count_neq is the number of elements
 //@closure 0
 |n_eq: usize| -> (r0: usize) requires n_eq <= self@.len() ensures r0 == self@.len() - n_eq
